@@ -144,3 +144,64 @@ def batch(props):
 
 if __name__ == '__main__' and sys.argv[1] == 'batch':
     batch(sys.argv[2:])
+
+
+def export():
+    """copy every confirmed seed into /verif/seeded/<id>/ with what was run, and print the table for DESIGN.md"""
+    out_root = '/verif/seeded'
+    rows = []
+    head = subprocess.check_output(['git', '-C', '/repo', 'rev-parse', '--short', 'HEAD'], text=True).strip()
+    for seed in sorted(glob.glob('/tmp/seed/out/C*/m*')):
+        prop, m = seed.split('/')[-2], seed.split('/')[-1]
+        rfile = '%s/results/%s_%s.json' % (S, prop, m)
+        if not os.path.exists(rfile):
+            continue
+        r = json.load(open(rfile))
+        if not r.get('confirmed'):
+            continue
+        meta = json.load(open(os.path.join(seed, 'meta.json')))
+        sid = '%s_%s' % (prop, m)
+        dst = os.path.join(out_root, sid)
+        shutil.rmtree(dst, ignore_errors=True)
+        os.makedirs(dst)
+        for f in os.listdir(seed):
+            if os.path.isfile(os.path.join(seed, f)) and f not in ('meta.json', 'patch.orig.diff'):
+                shutil.copy(os.path.join(seed, f), os.path.join(dst, f))
+        det = r.get('detect') or {}
+        det_out = {}
+        for p, v in det.items():
+            lines = v.get('lines', [])
+            viol = [l for l in lines if l.startswith('VIOLATION')]
+            det_out[p] = {'command': './check %s --tier quick (KV_REPO = scratch worktree with patch.diff applied)' % p,
+                          'exit_code': v.get('rc'),
+                          'violation_lines': [re.sub(r'replay=\S*/replays/', 'replay=replays/', l)[:300] for l in viol],
+                          'with_failing_input': bool(viol) and not all('no-failing-input-found' in l for l in viol)}
+        meta_out = {
+            'id': sid, 'breaks_property': prop,
+            'summary': meta.get('summary'), 'needs_to_manifest': meta.get('needs_to_manifest'),
+            'files_changed': meta.get('files_changed'), 'demo_cmd': meta.get('demo_cmd'),
+            'origin': 'written by a fresh sub-agent that saw only the text of the property and its own scratch worktree of /repo',
+            'confirmed_by_me': {
+                'repo_head': head,
+                'steps': ['demo on the unchanged tree (scratch worktree): exit %s' % r.get('demo_without'),
+                          'git apply patch.diff: exit %s' % r.get('apply'),
+                          'go build ./pkg/... and the harness with -tags verif: exit %s' % r.get('build'),
+                          'pinned test suite (go test -vet=off -count=1 -json ./...) vs stable_pass: missing %s' % (r.get('stable_missing') or 'none'),
+                          'demo with the change: exit %s' % r.get('demo_with')],
+                'demo_output_tail_with_change': (r.get('demo_with_tail') or '')[-600:],
+            },
+            'checks_run': det_out,
+        }
+        json.dump(meta_out, open(os.path.join(dst, 'meta.json'), 'w'), indent=1)
+        for p, v in det_out.items():
+            rows.append((sid, (meta.get('needs_to_manifest') or '')[:140].replace('\n', ' ').replace('|', '/'),
+                         p, 'caught (exit %s)%s' % (v['exit_code'], '' if v['with_failing_input'] else ', no-failing-input-found')
+                         if v['exit_code'] == 1 else 'MISSED'))
+    print('| seed | needs, to manifest | check | result |')
+    print('|---|---|---|---|')
+    for row in rows:
+        print('| %s | %s | %s | %s |' % row)
+
+
+if __name__ == '__main__' and sys.argv[1] == 'export':
+    export()
